@@ -29,3 +29,13 @@ Theorem c09_wrapped_iterator_fair_termination : forall e, iter_env e -> forall p
   n_pending (c_trace (exec e (init progs) (sched ++ concat blocks))) = 0%Z.
 Proof. exact iter_fair_termination. Qed.
 Print Assumptions c09_wrapped_iterator_fair_termination.
+
+(** frame for the frozen thread: a thread that takes no step keeps its local state whatever the other threads
+    do (any kind, any configuration, any schedule that does not name it) -- together with the wait-freedom
+    theorem: suspended for arbitrarily long, it neither delays the others nor is disturbed by them, and it
+    resumes exactly where it stopped *)
+From OCI.proofs Require Import History.
+Theorem c09_suspended_thread_is_untouched : forall e s c t,
+  ~ In t s -> c_pool (exec e c s) t = c_pool c t.
+Proof. exact unscheduled_thread_untouched. Qed.
+Print Assumptions c09_suspended_thread_is_untouched.
